@@ -12,7 +12,7 @@ usage: tryseed.py <ID> <A|B> <demo package dir relative to the repository root> 
 import json, os, shutil, subprocess, sys, time
 
 VERIF = os.path.dirname(os.path.dirname(os.path.abspath(__file__)))
-WT = "/tmp/mut"
+WT = os.environ.get("TRYSEED_WT", "/tmp/mut")
 ENV = dict(os.environ, GOFLAGS="-mod=mod", GOPROXY="off", GOSUMDB="off", GOTOOLCHAIN="local")
 
 
